@@ -18,15 +18,7 @@ import concurrent.futures
 import contextlib
 
 import common
-from coqlit import cz, cbool, clist, copt
-
-
-def cstr(s):
-    """Coq `string` literal (UTF-8 bytes); the case files open Z_scope, so byte lists are annotated %nat."""
-    b = s.encode('utf-8', 'surrogateescape') if isinstance(s, str) else bytes(s)
-    if all(32 <= c <= 126 for c in b):
-        return '"' + b.decode('ascii').replace('"', '""') + '"'
-    return '(bs [' + ';'.join(str(c) for c in b) + ']%nat)'
+from coqlit import cstr, cz, cbool, clist, copt
 
 IMPORTS = ['VModel:Target']
 LAUNCHER = os.path.join(common.VERIF, 'harness', 'c18_launcher.py')
@@ -684,7 +676,7 @@ def run(ctx):
     # ---- labels as functions of (host, port) through the real output code is done by the launcher (peer mode) ----
 
     # ---- process_commandline: single target, flags, -p ----
-    n_cli = 400 if q else 16000
+    n_cli = 400 if q else 14000
     for i in range(n_cli):
         sc = gen_cli_scenario(rng, 'refuse')
         arg = sc['arg']
@@ -719,10 +711,12 @@ def run(ctx):
             with open(fpath, 'wb') as f:
                 f.write(content.encode('utf-8'))
             r = impl_cli(['-T', fpath])
-            if r[0] != 'ok':    # the model says that reading a targets file never ends the run
-                add('false', {'op': 'file_lines', 'content': content, 'impl': repr(r)})
+            if r[0] != 'ok':    # no target left or a port out of range: usage exit; an unparsable port: ValueError
+                want = 'VExit' if r[0] == 'exit' else 'VCrash'
+                add('match file_lines %s with [] => %s | ts => match validate ts 22 with %s => true | _ => false end end' % (cstr(content), cbool(r[0] == 'exit'), want),
+                    {'op': 'file_lines', 'content': content, 'impl': repr(r)}, ('file_lines', r[0]))
                 continue
-            add('strs_eqb (file_lines %s) %s' % (cstr(content), clist(r[4], cstr)), {'op': 'file_lines', 'content': content, 'impl': r[4]},
+            add('strs_eqb (file_lines %s) %s && match validate (file_lines %s) 22 with VOk => true | _ => false end' % (cstr(content), clist(r[4], cstr), cstr(content)), {'op': 'file_lines', 'content': content, 'impl': r[4]},
                 ('file_lines', len(r[4]), '' in r[4], '\r' in content))
 
         # ---- _resolve (audit) and _resolve_hostname (rate test) with a synthetic resolver ----
@@ -742,8 +736,8 @@ def run(ctx):
                 clist(pref, cz), R, cstr(h), clist(pref, cz), exp_a), {'op': 'resolve', 'table': table, 'host': h, 'pref': pref, 'impl': a},
                 ('resolve', tuple(pref), None if a is None else tuple(x[0] for x in a)[:4]))
             exp_b = 'None' if b is None else ('(Some (0, ""))' if b == [0, ''] else '(Some (%s, %s))' % (cz(b[0]), cstr(b[1])))
-            add('opt_eqb (pair_eqb Z.eqb String.eqb) (option_map (fun l => match rate_first l with Some e => (e_fam e, e_ip e) | None => (0, "") end) (gai %s %s (gai_family %s))) %s' % (
-                R, cstr(h), clist(pref, cz), exp_b), {'op': 'rate_resolve', 'table': table, 'host': h, 'pref': pref, 'impl': b}, ('rate', tuple(pref), None if b is None else b[0]))
+            add('opt_eqb (pair_eqb Z.eqb String.eqb) (option_map (fun l => match rate_first %s l with Some e => (e_fam e, e_ip e) | None => (0, "") end) (gai %s %s (gai_family %s))) %s' % (
+                clist(pref, cz), R, cstr(h), clist(pref, cz), exp_b), {'op': 'rate_resolve', 'table': table, 'host': h, 'pref': pref, 'impl': b}, ('rate', tuple(pref), None if b is None else b[0]))
             # oracle: the rate test must talk to the same address as the audit (requested families in the requested order)
             ctx.evaluations += 1
             if a and b and b != [0, ''] and a[0] != b:
@@ -751,7 +745,7 @@ def run(ctx):
                               {'op': 'rate_resolve', 'table': table, 'host': h, 'pref': pref, 'key': 'rate-test/%s/family-order-ignored' % ''.join(map(str, pref))})
 
         # ---- end-to-end runs of the real command line ----
-        n_run = 600 if q else 36000
+        n_run = 600 if q else 30000
         scs = []
         for i in range(n_run):
             mode = 'peer' if i % 3 == 2 else 'refuse'
